@@ -1505,7 +1505,9 @@ def run_C09(ctx):
                          "rule zz%d_p(x) { %%x is_struct }\n"
                          "rule zz%d_neg_named {\nnot zz%d_pass\n}\nrule zz%d_neg_call {\nnot zz%d_p(this)\n}\n"
                          "rule zz%d_ref_fail {\nzz%d_fail\n}\nrule zz%d_neg_fail {\nnot zz%d_fail\nnot zz%d_skip\n}\n"
-                         "rule zz%d_ref_skip {\nzz%d_skip\n}\nrule zz%d_call {\nzz%d_p(this) <<call msg>>\n}\n") % ((k,) * 17)
+                         "rule zz%d_ref_skip {\nzz%d_skip\n}\nrule zz%d_call {\nzz%d_p(this) <<call msg>>\n}\n"
+                         "rule zz%d_q(x) { %%x is_string <<inner msg>> }\n"
+                         "rule zz%d_call_fail {\nzz%d_q(this) <<failing call msg>>\n}\n") % ((k,) * 20)
         if i % 4 == 1:
             # clauses with a custom message over SEVERAL values (every failing value must carry the clause's message)
             k = rng.randrange(len(progs))
@@ -2526,9 +2528,31 @@ def run_C07(ctx):
                     data = yt.replace("'@@XF@@'", xf).replace('"@@XF@@"', xf).replace("@@XF@@", xf)
             except Exception:
                 pass
+        elif i % 4 == 2:
+            # BLOCK YAML whose last value is a block scalar (its final line break belongs to the value), optionally with
+            # the whole document indented: the text must reach the loader unchanged from a file, stdin and --payload
+            try:
+                yt = _yaml.safe_dump(d, default_flow_style=False, width=10 ** 6, allow_unicode=True)
+                if _yaml.safe_load(yt) == d:
+                    yt = yt.replace("'@@XF@@'", xf).replace('"@@XF@@"', xf).replace("@@XF@@", xf)
+                    tail = ["zmotd: |\n  hello\n", "zmotd: |+\n  hello\n\n\n", "zmotd: >\n  hello\n", "zmotd: |\n  hello\n\n"][(i // 4) % 4]
+                    yt += tail
+                    if (i // 16) % 2 == 1:
+                        yt = "".join("  " + ln if ln.strip() else ln for ln in yt.splitlines(True))
+                    data = yt
+                    rules += "rule zmotd_nl { zmotd == /hello\\n+$/ }\nrule zmotd_ne { zmotd != \"hello\" }\nrule zmotd_kept { zmotd == \"hello\\n\\n\\n\" }\n"
+            except Exception:
+                pass
         files = {"r.guard": rules, "d.json": data}
         base = ["validate", "-r", "{DIR}/r.guard", "-d", "{DIR}/d.json"]
         row = {"rules": rules, "data": data, "v": {}}
+        if i % 5 == 3 and data.startswith("{"):
+            # the same JSON document with a root `resource_changes` key (Terraform plan shape: another reporter takes over)
+            dtf = '{"resource_changes": [], ' + data[1:]
+            ftf = {"r.guard": rules, "d.json": dtf}
+            row["tf"] = {k: add({"argv": base + e, "files": ftf}) for k, e in
+                         (("o-json", ["-S", "all", "-o", "json"]), ("o-yaml", ["-S", "all", "-o", "yaml"]),
+                          ("s-json", ["--structured", "-o", "json", "-S", "none"]))}
         if i % 3 == 0:
             # a second rules file that defines the SAME rule names: renderings must agree on the union
             r2 = distinct_names_program(gen.G(ctx.seed * 1900037 + i + 500000), d, 1)[0]
@@ -2690,6 +2714,33 @@ def run_C07(ctx):
                             bad.append("two rules files sharing rule names: summary tables give %s, %s gives %s" % (part, nm, pv))
                 except Exception as e:
                     bad.append("two rules files: structured output unreadable: %s" % e)
+        if "tf" in row:
+            tf = {k: outs[j] for k, j in row["tf"].items()}
+            if tf["s-json"]["code"] in (0, 19):
+                res.stats["tf-shaped-rows"] += 1
+                try:
+                    Pt = partition_of_report(json.loads(tf["s-json"]["stdout"])[0])
+                    res.stats["tf-shaped-rows-status-%s" % Pt["status"]] += 1
+                    for k in ("o-json", "o-yaml"):
+                        if tf[k]["code"] != tf["s-json"]["code"]:
+                            bad.append("tf-shaped document: exit code %s under `%s`, %s under --structured" % (tf[k]["code"], k, tf["s-json"]["code"]))
+                        part, st = table(tf[k]["stdout"])
+                        if {x: part[x] for x in ("PASS", "FAIL", "SKIP")} != {x: Pt[x] for x in ("PASS", "FAIL", "SKIP")}:
+                            bad.append("tf-shaped document: summary table under `%s` gives %s, structured report %s" % (k, part, Pt))
+                    try:
+                        js = tf["o-json"]["stdout"]
+                        if partition_of_report(json.loads(js[js.index("\n{"):])) != Pt:
+                            bad.append("tf-shaped document: -o json document disagrees with --structured")
+                    except Exception as e:
+                        bad.append("tf-shaped document: -o json did not contain a JSON report document: %s" % e)
+                    try:
+                        ys = tf["o-yaml"]["stdout"]
+                        if partition_of_report(_yaml.safe_load(ys[ys.index("\nname:"):].replace("{DIR}", "DIR"))) != Pt:
+                            bad.append("tf-shaped document: -o yaml document disagrees with --structured")
+                    except Exception as e:
+                        bad.append("tf-shaped document: -o yaml did not contain a YAML report document: %s" % e)
+                except Exception as e:
+                    bad.append("tf-shaped document: --structured -o json unreadable: %s" % e)
         for b in bad:
             res.judge_failures.append(dict(info, what="rendering/entry point changes the verdict: " + b, rules2=row.get("rules2"), **{"class": "c07-" + b.split(" ")[0].strip("-:").lower()}))
         if ri < 2:
@@ -4544,7 +4595,13 @@ def run_C10(ctx):
         if i % 3 == 1:
             # multi-line strings (block scalars in the block layout): the reported value is the text with its line breaks
             doc["znotes"] = {"text": g.ch(["line one\nline two\n", "a\nb", "one\n", "x: y\n# not a comment\n"]), "n": 1}
+        if i % 4 == 2:
+            # an entry whose key is the EMPTY string, with siblings named like its children: its pointer is "<parent>/"
+            # and everything below it "<parent>//child"
+            doc["zlim"] = {"": {"size": 40, "owner": {"id": 7}, "tags": ["p", "q"]}, "size": 5, "owner": {"name": "x"}, "tags": ["r"]}
         rules = g.rules_file(doc, depth=2, cfn=cfn)
+        if "zlim" in doc:
+            rules += "rule zempty {\nzlim.*.size <= 10\nzlim.*.owner.name exists\nzlim.*.tags[*] == \"r\"\n}\n"
         if "znotes" in doc:
             rules += "rule ztext {\nznotes.text == \"never-equal-zz\"\nznotes.text.zzmissing exists\n}\n"
         if any(_re.search(r"\b%s\s*\(" % f, rules) for f in C10_FUNCS):
@@ -4565,6 +4622,14 @@ def run_C10(ctx):
                 res.stats["emitter-self-check-failed"] += 1
                 continue
             scen.append({"rules": rules, "doc": doc, "style": style, "text": text, "pos": pos, "lit": c10_literal_lets(rules)})
+    # numbers at the float boundary (overflowing literals, YAML inf / nan spellings): if a report is produced at all, the
+    # value it shows for the path is that number (the unchanged tree refuses to serialise them: exit 255, nothing to judge)
+    inf, nan_rules = float("inf"), "rule zq {\nzq.max < 100\nzq.min > 0\nzq.burst is_null\nzq.deep[*].v == 1\nzq.zzmissing exists\n}\n"
+    for txt in ('{"zq": {"max": 1e999, "min": -1e999, "burst": 1e999, "deep": [{"v": 1e999}], "n": 1}}',
+                "zq:\n  max: 1e999\n  min: -1e999\n  burst: 1e999\n  deep:\n  - v: 1e999\n  n: 1\n",
+                "zq: {max: inf, min: -inf, burst: inf, deep: [{v: inf}], n: 1}\n"):
+        scen.append({"rules": nan_rules, "doc": {"zq": {"max": inf, "min": -inf, "burst": inf, "deep": [{"v": inf}], "n": 1}},
+                     "style": "nonfinite", "text": txt, "pos": {}, "lit": False, "no_model": True})
     reqs = [{"id": i, "op": "cli", "argv": ["validate", "-r", "{DIR}/r.guard", "-d", "{DIR}/d.yaml", "--structured", "-o", "json", "-S", "none"],
              "files": {"r.guard": s["rules"], "d.yaml": s["text"]}} for i, s in enumerate(scen)]
     outs = ctx.hp.map(reqs, timeout=60)
@@ -4699,6 +4764,8 @@ def run_C10(ctx):
     # correspondence with the model on the same rule files (JSON rendering of the document)
     seen, cases = set(), []
     for s in scen:
+        if s.get("no_model"):
+            continue
         k = vlib.sha(s["rules"] + json.dumps(s["doc"]))
         if k not in seen:
             seen.add(k)
